@@ -124,6 +124,7 @@ class Weaver:
     def locate(self, unit, ctx):
         mod, header, name = unit.source
         header = expand(header, ctx)
+        name = expand(name, ctx)
         hn = norm(tokenize(header)) if header not in ("", "-") else ""
         fns = self.idx.find_fn(mod, hn, name)
         if len(fns) != 1:
